@@ -2,9 +2,12 @@ package checks
 
 import (
 	"context"
+	"crypto/ed25519"
+	"crypto/rand"
 	"encoding/json"
 	"errors"
 	"fmt"
+	"io"
 	"regexp"
 	"strings"
 
@@ -31,7 +34,8 @@ type c04Cfg struct {
 	// Redial: history — the same Client has already completed a fault-free dial / send / close against a server that
 	// advertised the COMPLEMENTARY capability set; the judged session is the one of the second dial
 	Redial bool `json:"redial,omitempty"`
-	// BadMsg: a message the library has to refuse locally stands FIRST in every batch: 1 = no recipients,
+	// BadMsg: a message that cannot be sent stands FIRST in every batch: 3 = its rendering fails before the first byte once
+	// DATA was accepted (unusable signing key), 4 = its body writer fails after some output; 1 = no recipients,
 	// 2 = no sender. Nothing of it may reach the wire in a way that disturbs the messages that follow.
 	BadMsg int `json:"badmsg,omitempty"`
 }
@@ -329,6 +333,23 @@ func c04Exec(r *vf.Run, cfg c04Cfg, c *vf.Chooser) (keys []string, whats []strin
 					_ = bad.To("nosender@rcp.example")
 					bad.SetBodyString(mail.TypeTextPlain, "a message without sender")
 					batch = append([]*mail.Msg{bad}, batch...)
+				case 3, 4:
+					// a message whose rendering fails once DATA has been accepted: 3 = before its first byte (the S/MIME
+					// signer refuses the key at render time), 4 = after part of the body (failing body writer)
+					bad := mail.NewMsg(mail.WithEncoding(enc))
+					_ = bad.From("unrenderable@snd.example")
+					_ = bad.To("unrenderable@rcp.example")
+					if cfg.BadMsg == 3 {
+						bad.SetBodyString(mail.TypeTextPlain, "a message that cannot be signed")
+						_, edKey, _ := ed25519.GenerateKey(rand.Reader)
+						_ = bad.SignWithKeypair(edKey, hx.Mat().SignECDSA.Leaf, nil)
+					} else {
+						bad.SetBodyWriter(mail.TypeTextPlain, func(w io.Writer) (int64, error) {
+							n, _ := w.Write([]byte("first half of a body whose producer then fails\r\n"))
+							return int64(n), errProducer
+						})
+					}
+					batch = append([]*mail.Msg{bad}, batch...)
 				}
 				err := cl.Send(batch...)
 				callErrs = append(callErrs, err)
@@ -590,7 +611,7 @@ func init() {
 			}
 			// a message that has to be refused locally stands first in the batch
 			for _, caps := range []int{0b001111, 0b000000, 0b010111} {
-				for bm := 1; bm <= 2; bm++ {
+				for bm := 1; bm <= 4; bm++ {
 					for tls := 0; tls < 2; tls++ {
 						jobs = append(jobs, job{c04Cfg{TLS: tls, DSN: 1, Caps: caps, M: 2, R: 1, BadMsg: bm}, 1}, job{c04Cfg{TLS: tls, DSN: 0, Enc8: true, Caps: caps, M: 1, R: 2, Calls: 2, BadMsg: bm}, 1})
 					}
